@@ -1,9 +1,12 @@
 package eng
 
 import (
+	"encoding/json"
 	"fmt"
 	"go/token"
 	"go/types"
+	"os"
+	"path/filepath"
 	"sort"
 	"strings"
 
@@ -254,6 +257,30 @@ var plans = map[string]*propertyPlan{
 					detail = "the regenerated code does not compile: " + truncate(lerr.Error(), 1500)
 				}
 				structOblig(res, "gen/compiles[regenerated output of the repository's descriptors]", lerr == nil, detail, "C16")
+				// and a synthetic service built in memory: every call type, with and without per-node
+				// arguments, async, server stream - all request and response messages IMPORTED from
+				// other packages, so every message type in the output must be qualified
+				sdir := filepath.Join(curGen.Tmp, "synth")
+				o, _ := runCmd(curGen.Tmp, curGen.gentool, "synth", curGen.plugin, sdir)
+				var r struct {
+					ExitError bool     `json:"exit_error"`
+					RespErr   string   `json:"response_error"`
+					Stderr    string   `json:"stderr"`
+					Files     []string `json:"files"`
+				}
+				json.Unmarshal([]byte(o), &r)
+				okGen := !r.ExitError && r.RespErr == "" && len(r.Files) == 1
+				structOblig(res, "gen/accepts[synthetic service with imported message types]", okGen, truncate(o, 400), "C16")
+				if okGen {
+					b, _ := os.ReadFile(filepath.Join(sdir, r.Files[0]))
+					ov := map[string][]byte{filepath.Join(RepoDir, "internal", "zzsynth", "synth_gorums.pb.go"): b}
+					_, serr := Load(RepoDir, []string{modPath + "/internal/zzsynth"}, ov)
+					d := "the code generated for the synthetic service type-checks (package overlaid at internal/zzsynth, nothing written to the repository)"
+					if serr != nil {
+						d = "the code generated for the synthetic service does not compile: " + truncate(serr.Error(), 1500)
+					}
+					structOblig(res, "gen/compiles[synthetic service with imported message types]", serr == nil, d, "C16")
+				}
 				out = append(out, res)
 			}
 			if curGen != nil {
